@@ -157,3 +157,13 @@ void CTL_CopyStep2(uint8_t *dst, uint8_t *src, uint32_t len)
         len--;
     }
 }
+
+/* RF7-sign: a stored 16-bit code declared signed is widened into an unsigned 32-bit value: codes >= 8000h sign-extend */
+struct CTL_SIGNED_CODE { int16_t Code; };
+uint32_t CTL_SignExtend(struct CTL_SIGNED_CODE *tbl, uint8_t err)
+{
+    uint32_t val;
+
+    val = (uint32_t)tbl[err].Code;                      /* DEFECT: FFFF8130h for code 8130h */
+    return (val);
+}
